@@ -104,6 +104,7 @@ func errNilOfCall(pred func(ssa.CallInstruction) bool) ir.Guard {
 }
 
 func runC12(c *core.Ctx) {
+	checkCrossStatesWrittenOnReplay(c, "C12.replay-writes-cross-states")
 	checkRecoverAfterLoad(c)
 	checkReplayWritesWhatSubmitWrites(c)
 	sb := c.Fn(pkLedger, "LedgerStoreImp.submitBlock")
